@@ -26,7 +26,11 @@ RULE = ("(read, variant) pairs of error-free reads (exact copies of a haplotype,
         "synthetic calls of the walker / prefix / split / realign / no-reference detector. A pair is non-trivial if the "
         "read overlaps the variant (or lies within 12 bp of it); a synthetic call is non-trivial if it yields or "
         "decides something. distinct = distinct (variant kind, allele, CIGAR around the variant, offsets to read "
-        "start/end, mode) or distinct synthetic input")
+        "start/end, mode) or distinct synthetic input. Modes: with reference (Levenshtein and affine gap costs), without. "
+        "Filter stream: alignment records of 1-2 BAM files (flags, mapq around the threshold, read groups of three samples / "
+        "none, SEQ '*', CIGAR '*', BX/HP/PS tags, supplementary alignments, poison copies carrying the opposite alleles under "
+        "flags that must be filtered) under random reader configurations, samples and regions; a record is non-trivial if "
+        "it is a poison record that must be dropped or a usable error-free alignment")
 MANIFEST = dict(
     text="Lean 4 theorems about a hand-written model of the CIGAR/variant lock-step walk, the CIGAR split and prefix "
          "arithmetic, the re-alignment decision and the no-reference detector: the walk equals the alignment's "
@@ -45,17 +49,35 @@ MANIFEST = dict(
     note="trusted: Lean kernel, axioms ⊆ {propext, Classical.choice, Quot.sound}; the hand-written model (tied by "
          "differential testing); edit_distance = Levenshtein is C19's claim; the window lemma is proved for SNV/MNP only "
          "(insertions/deletions: differential + ground truth); the no-reference theorem covers SNVs (unshiftable indels: "
-         "differential + ground truth); affine-gap and k-merald re-alignment are not modelled; the model describes the "
-         "code with fixes F12-F16 applied (each defect also modelled as-is, selectable, with a Lean witness)",
+         "differential + ground truth); k-merald re-alignment and CRAM are not modelled; the model describes the "
+         "code with fixes F12-F16 applied (each defect also modelled as-is, selectable, with a Lean witness). Deepened: "
+         "edit_distance_affine_gap (three-table Gotoh DP + prefix/suffix shortcut) is modelled and proved to compute the minimum "
+         "cost over all enumerated alignments (the shortcut: cost 0 iff equal, proved; equality with the minimum for "
+         "gap_extend <= gap_start by differential test against two brute-force yard-sticks), the affine branch of realign gives "
+         "the carried allele for error-free reads over isolated variants; ReadSetReader.read as a whole (fetch, sample "
+         "selection, regions, _usable_alignments, variant pointer, missing SEQ/CIGAR/RG, grouping, create_read_from_group) is "
+         "modelled: a primary alignment with mapq >= threshold is never filtered, the filter is an order-preserving, "
+         "idempotent selection, secondary/unmapped/duplicate/low-mapq alignments never reach detection, every allele of every "
+         "returned read was detected on a usable alignment of that name; F11 is characterised by a proved criterion for a "
+         "second indel in the right half of the window",
     technique="Lean 4 proof (walker/prefix/split/decision/window lemma/no-reference SNV machine) + differential "
               "correspondence + ground-truth oracle",
 )
 ASSUMPTIONS = [
-    "default re-alignment only (no --use-affine / k-merald); overhang 10 in the pipeline stream, 0–12 in synthetic calls",
+    "re-alignment by Levenshtein distance and by affine gap costs (whatshap genotype --affine-gap; in-process only: phase has "
+    "no such option and genotype does not expose its reads), no k-merald, no CRAM; overhang 10 in the pipeline streams, 0–12 in "
+    "synthetic calls",
+    "affine DP: the code's float tables hold integers far below 2^24 (exact) and INT_MAX entries are never the minimum of a "
+    "reachable cell (modelled as 'no value'); the prefix/suffix shortcut is minimal only for gap_extend <= gap_start "
+    "(defaults 7 <= 10; a Lean witness shows it is not for 5 > 1)",
+    "the alignments handed to the model are what pysam's fetch delivers (htslib's overlap test is trusted, reference_end is "
+    "tied to the CIGAR on every record); with several BAM files the precedence between errors of different files is not "
+    "modelled (error vs. no error is compared)",
     "variant positions unique and sorted (ReadSetReader.read asserts uniqueness; VCF order); bi-allelic records in the "
     "ground-truth streams, multi-allelic ones only in synthetic calls",
     "edit_distance is true Levenshtein distance (property C19)",
-    "reads carry a sequence (SEQ '*' is outside the property)",
+    "reads carry a sequence (SEQ '*' is outside the property; the crash of read() on such a record is modelled as it is and "
+    "reported as an observation, proposed finding F40)",
 ]
 
 # The no-reference clause of C06 ("without one this holds for SNVs and unshiftable insertions/deletions ...") can be read
